@@ -78,7 +78,7 @@ func C07(r *drv.Run) {
 		nReaderOps = 600000
 		rounds = 4
 	}
-	r.Rule = "(1) differential: RunFiles([f], NOTHING) == Run(string(bytes of f)) on every field but Filename, for 16 programs forcing forward scans, one-byte-back reads (line/word anchors), far-back seeks (lazy scan to EOF that fails; greedy loop over a ~1500 byte run straddling offset 4096 that backtracks) x 17 file sizes (0, 1, 2, around 2048/4096/6144/8192, 12 000, 20 000) with needles planted around every multiple of 2048, files that begin with a byte-order mark (UTF-8, UTF-16 either way, half of one, two of them), an interpreter line, a magic number or NUL bytes, also the same files reached through symbolic links and through names whose `..` follows a link to a directory elsewhere, several files (an empty one among them) in one call, a directory argument (== the files directly inside it, in name order) under three spellings, and sessions in which the same path is rewritten with different bytes of the same size and searched again within one process; (2) online monitor (hook H4): every read the engine issues to the backing store is compared with the ground-truth bytes at the offset the Reader believes it is at; re-centres forward/backward, reads spanning a 4096 boundary and reads of the last byte are counted; (3) direct driver: long random Seek/Read/ReadAt/anchor-pair histories on files.ReaderFromFile vs ReaderFromString vs the bytes, offsets biased to 0, window edges, size-1, size, with 180 other readers on files opened and kept open in the middle of each history; the same on files of 1 MiB + 37, 4 MiB and 64 MiB + 5 904 bytes with offsets biased to the first and last 80 KiB and reads of up to 3 MiB. Non-trivial = engine case with >= 1 match and >= 1 window re-centre, or reader history with >= 1 backward re-centre; distinct by (program, size, content seed)."
+	r.Rule = "(1) differential: RunFiles([f], NOTHING) == Run(string(bytes of f)) on every field but Filename, for 16 programs forcing forward scans, one-byte-back reads (line/word anchors), far-back seeks (lazy scan to EOF that fails; greedy loop over a ~1500 byte run straddling offset 4096 that backtracks) x 17 file sizes (0, 1, 2, around 2048/4096/6144/8192, 12 000, 20 000) with needles planted around every multiple of 2048, files that begin with a byte-order mark (UTF-8, UTF-16 either way, half of one, two of them), an interpreter line, a magic number or NUL bytes, also the same files reached through symbolic links and through names whose `..` follows a link to a directory elsewhere, files owned by another user than the searching process (as root: the worker runs as user 65534 over root's scratch files; otherwise root-owned system files), several files (an empty one among them) in one call, a directory argument (== the files directly inside it, in name order) under three spellings, and sessions in which the same path is rewritten with different bytes of the same size and searched again within one process; (2) online monitor (hook H4): every read the engine issues to the backing store is compared with the ground-truth bytes at the offset the Reader believes it is at; re-centres forward/backward, reads spanning a 4096 boundary and reads of the last byte are counted; (3) direct driver: long random Seek/Read/ReadAt/anchor-pair histories on files.ReaderFromFile vs ReaderFromString vs the bytes, offsets biased to 0, window edges, size-1, size, with 180 other readers on files opened and kept open in the middle of each history; the same on files of 1 MiB + 37, 4 MiB and 64 MiB + 5 904 bytes with offsets biased to the first and last 80 KiB and reads of up to 3 MiB. Non-trivial = engine case with >= 1 match and >= 1 window re-centre, or reader history with >= 1 backward re-centre; distinct by (program, size, content seed)."
 	r.Assumptions = []string{"the online read monitor trusts only the bytes the harness itself wrote to the file"}
 	dir := filepath.Join(r.WorkDir, "c07")
 	os.MkdirAll(dir, 0o755)
@@ -150,77 +150,108 @@ func C07(r *drv.Run) {
 		}
 	}
 	// engine cases
-	n := len(files) * len(c07Programs)
-	r.Exec(n, drv.ExecOpts{Batch: 6}, func(i int) *drv.Item {
-		f := files[i/len(c07Programs)]
-		src := c07Programs[i%len(c07Programs)]
-		// the VM keeps a full copy of its backtrack stack in every saved choice point (quadratic memory)
-		// and rebuilds the match text on every consumed byte (quadratic time): bound the heavy programs
-		if (f.size > 4097 && src == c07Programs[5]) || (f.size > 8193 && src == c07Programs[3]) {
-			return nil
-		}
-		c := wire.Case{Op: "runfiles", Src: []byte(src), Files: []string{f.path}, Mode: "NOTHING", Texts: [][]byte{f.content}, StepBudget: 30_000_000}
-		return &drv.Item{Case: c, Check: func(res *wire.Result) {
-			if crashOrGuard(r, res, &c, src, false) {
-				return
+	engine := func(files []fcase, opts drv.ExecOpts, counter string) {
+		n := len(files) * len(c07Programs)
+		r.Exec(n, opts, func(i int) *drv.Item {
+			f := files[i/len(c07Programs)]
+			src := c07Programs[i%len(c07Programs)]
+			// the VM keeps a full copy of its backtrack stack in every saved choice point (quadratic memory)
+			// and rebuilds the match text on every consumed byte (quadratic time): bound the heavy programs
+			if (f.size > 4097 && src == c07Programs[5]) || (f.size > 8193 && src == c07Programs[3]) {
+				return nil
 			}
-			if res.Compile == nil || !res.Compile.OK {
-				r.Inconclusive("fixed program rejected: " + src)
-				return
+			c := wire.Case{Op: "runfiles", Src: []byte(src), Files: []string{f.path}, Mode: "NOTHING", Texts: [][]byte{f.content}, StepBudget: 30_000_000}
+			return &drv.Item{Case: c, Check: func(res *wire.Result) {
+				if crashOrGuard(r, res, &c, src, false) {
+					return
+				}
+				if res.Compile == nil || !res.Compile.OK {
+					r.Inconclusive("fixed program rejected: " + src)
+					return
+				}
+				if len(res.Runs) != 2 {
+					r.Inconclusive("short result")
+					return
+				}
+				fr, sr := &res.Runs[0], &res.Runs[1]
+				r.Eval(1)
+				label := fmt.Sprintf("size=%d", f.size)
+				if fr.Panic != nil {
+					r.Violate(&drv.Violation{Sig: "runfiles-panic:" + fr.Panic.Frame, Panic: fr.Panic.Msg, Frame: fr.Panic.Frame, Src: src, Case: &c, Detail: map[string]any{"file": label}})
+					return
+				}
+				if sr.Panic != nil {
+					r.Violate(&drv.Violation{Sig: "run-panic:" + sr.Panic.Frame, Panic: sr.Panic.Msg, Frame: sr.Panic.Frame, Src: src, Case: &c, Detail: map[string]any{"file": label}})
+					return
+				}
+				if fr.Budget != "" || sr.Budget != "" {
+					r.Count("skipped_expensive", 1)
+					return
+				}
+				if fr.ReadMismatch != "" {
+					r.Violate(&drv.Violation{Sig: "engine-read-returned-wrong-bytes", Src: src, Case: &c, Detail: map[string]any{"file": label, "read": fr.ReadMismatch}})
+					return
+				}
+				a := append([]wire.Match{}, fr.Matches...)
+				for k := range a {
+					a[k].File = "text"
+				}
+				if matchesJSON(a) != matchesJSON(sr.Matches) {
+					d := "count"
+					for k := 0; k < len(a) && k < len(sr.Matches); k++ {
+						if matchesJSON(a[k:k+1]) != matchesJSON(sr.Matches[k:k+1]) {
+							d = fmt.Sprintf("first difference at match %d: file %s vs string %s", k, oneLineN(matchesJSON(a[k:k+1]), 200), oneLineN(matchesJSON(sr.Matches[k:k+1]), 200))
+							break
+						}
+					}
+					r.Violate(&drv.Violation{Sig: "file-result-differs-from-string-result", Src: src, Case: &c,
+						Detail: map[string]any{"file": label, "file_matches": len(a), "string_matches": len(sr.Matches), "diff": d}})
+					return
+				}
+				r.Count("engine_backing_reads", fr.Reads)
+				r.Count("refill_forward", fr.RefillFwd)
+				r.Count("refill_backward", fr.RefillBack)
+				r.Count("reads_spanning_4096_boundary", fr.EdgeReads)
+				r.Count("reads_of_last_byte", fr.LastByteReads)
+				r.Count("matches_compared", len(a))
+				if len(a) > 0 && fr.RefillFwd+fr.RefillBack > 0 {
+					r.Nontrivial(fmt.Sprintf("%s|%s", src, f.path))
+				}
+				if i%29 == 0 {
+					r.Sample(map[string]any{"program": src, "file_size": f.size, "matches": len(a), "refills_back": fr.RefillBack})
+				}
+				if counter != "" {
+					r.Count(counter, 1)
+				}
+			}}
+		})
+	}
+	engine(files, drv.ExecOpts{Batch: 6}, "")
+	// files that belong to SOMEBODY ELSE (readable all the same): as root the worker process runs as user 65534 over
+	// the scratch files, which root owns; otherwise it searches readable system files that root owns
+	{
+		var other []fcase
+		opts := drv.ExecOpts{Batch: 6}
+		if os.Geteuid() == 0 {
+			for k := 0; k < len(files) && len(other) < 6; k += 5 {
+				other = append(other, files[k])
 			}
-			if len(res.Runs) != 2 {
-				r.Inconclusive("short result")
-				return
-			}
-			fr, sr := &res.Runs[0], &res.Runs[1]
-			r.Eval(1)
-			label := fmt.Sprintf("size=%d", f.size)
-			if fr.Panic != nil {
-				r.Violate(&drv.Violation{Sig: "runfiles-panic:" + fr.Panic.Frame, Panic: fr.Panic.Msg, Frame: fr.Panic.Frame, Src: src, Case: &c, Detail: map[string]any{"file": label}})
-				return
-			}
-			if sr.Panic != nil {
-				r.Violate(&drv.Violation{Sig: "run-panic:" + sr.Panic.Frame, Panic: sr.Panic.Msg, Frame: sr.Panic.Frame, Src: src, Case: &c, Detail: map[string]any{"file": label}})
-				return
-			}
-			if fr.Budget != "" || sr.Budget != "" {
-				r.Count("skipped_expensive", 1)
-				return
-			}
-			if fr.ReadMismatch != "" {
-				r.Violate(&drv.Violation{Sig: "engine-read-returned-wrong-bytes", Src: src, Case: &c, Detail: map[string]any{"file": label, "read": fr.ReadMismatch}})
-				return
-			}
-			a := append([]wire.Match{}, fr.Matches...)
-			for k := range a {
-				a[k].File = "text"
-			}
-			if matchesJSON(a) != matchesJSON(sr.Matches) {
-				d := "count"
-				for k := 0; k < len(a) && k < len(sr.Matches); k++ {
-					if matchesJSON(a[k:k+1]) != matchesJSON(sr.Matches[k:k+1]) {
-						d = fmt.Sprintf("first difference at match %d: file %s vs string %s", k, oneLineN(matchesJSON(a[k:k+1]), 200), oneLineN(matchesJSON(sr.Matches[k:k+1]), 200))
-						break
+			opts.UID = 65534
+			os.Chmod(r.WorkDir, 0o755)
+		} else {
+			for _, p := range []string{"/etc/passwd", "/etc/hostname", "/etc/os-release", "/etc/services", "/etc/group"} {
+				if st, err := os.Stat(p); err == nil && st.Mode().IsRegular() && st.Size() < 100000 {
+					if b, err := os.ReadFile(p); err == nil {
+						other = append(other, fcase{p, b, len(b)})
 					}
 				}
-				r.Violate(&drv.Violation{Sig: "file-result-differs-from-string-result", Src: src, Case: &c,
-					Detail: map[string]any{"file": label, "file_matches": len(a), "string_matches": len(sr.Matches), "diff": d}})
-				return
 			}
-			r.Count("engine_backing_reads", fr.Reads)
-			r.Count("refill_forward", fr.RefillFwd)
-			r.Count("refill_backward", fr.RefillBack)
-			r.Count("reads_spanning_4096_boundary", fr.EdgeReads)
-			r.Count("reads_of_last_byte", fr.LastByteReads)
-			r.Count("matches_compared", len(a))
-			if len(a) > 0 && fr.RefillFwd+fr.RefillBack > 0 {
-				r.Nontrivial(fmt.Sprintf("%s|%s", src, f.path))
-			}
-			if i%29 == 0 {
-				r.Sample(map[string]any{"program": src, "file_size": f.size, "matches": len(a), "refills_back": fr.RefillBack})
-			}
-		}}
-	})
+		}
+		engine(other, opts, "searches_of_files_owned_by_somebody_else")
+		if r.NViolations() == 0 && r.Counter("searches_of_files_owned_by_somebody_else") == 0 {
+			r.Inconclusive("coverage floor: searches_of_files_owned_by_somebody_else = 0")
+		}
+	}
 	// a DIRECTORY argument == the files directly inside it, in name order (sub-directories are not searched)
 	{
 		dd := filepath.Join(dir, "dargs")
